@@ -10,8 +10,14 @@
 (* order of events of different lanes.                                     *)
 (*   Tick           the clock advances                                      *)
 (*   Read(l)        lane l observes the clock: its observation is `now`    *)
-(*   SleepBegin(l,d) lane l reads the clock and starts sleeping for d      *)
-(*   SleepEnd(l)    enabled only when now >= start + d; the lane reads     *)
+(*   SleepBegin(l,d) lane l reads the clock and starts sleeping for d:     *)
+(*                  sleep(d) is a LOOP of nanosleep calls, the first one   *)
+(*                  requesting d                                            *)
+(*   Interrupt(l)   a signal ends the pending nanosleep call early (EINTR);*)
+(*                  the kernel reports the remainder of THAT call and the  *)
+(*                  loop restarts with exactly the remainder                *)
+(*   SleepEnd(l)    the pending call has run its full request: sleep       *)
+(*                  returns; the lane reads the clock                       *)
 (* Properties (checked by TLC on small bounds, Clock_MC.cfg):              *)
 (*   ReadMonotone   what a lane observes never decreases                    *)
 (*   SleepLower     a sleep that has returned lasted at least d             *)
@@ -24,7 +30,8 @@ CONSTANTS Lanes, MaxNow, Durs
 VARIABLES now, seen, sleeping, prev, lastSleep
 cvars == <<now, seen, sleeping, prev, lastSleep>>
 
-NoSleep == [on |-> FALSE, start |-> 0, d |-> 0]
+\* start/d: the sleep(d) call; cstart/req: the pending nanosleep call
+NoSleep == [on |-> FALSE, start |-> 0, d |-> 0, cstart |-> 0, req |-> 0]
 Init == /\ now = 0
         /\ seen = [l \in Lanes |-> 0]
         /\ prev = [l \in Lanes |-> 0]
@@ -37,19 +44,27 @@ Read(l) == /\ ~sleeping[l].on
            /\ seen' = [seen EXCEPT ![l] = now]
            /\ UNCHANGED <<now, sleeping, lastSleep>>
 SleepBegin(l, d) == /\ ~sleeping[l].on
-                    /\ sleeping' = [sleeping EXCEPT ![l] = [on |-> TRUE, start |-> now, d |-> d]]
+                    /\ sleeping' = [sleeping EXCEPT ![l] = [on |-> TRUE, start |-> now, d |-> d, cstart |-> now, req |-> d]]
                     /\ prev' = [prev EXCEPT ![l] = seen[l]]
                     /\ seen' = [seen EXCEPT ![l] = now]
                     /\ UNCHANGED <<now, lastSleep>>
+\* Err(EINTR) => continue, with the remainder the kernel wrote back
+Interrupt(l) == /\ sleeping[l].on
+                /\ now < sleeping[l].cstart + sleeping[l].req
+                /\ sleeping' = [sleeping EXCEPT ![l].cstart = now,
+                                                ![l].req = sleeping[l].cstart + sleeping[l].req - now]
+                /\ UNCHANGED <<now, seen, prev, lastSleep>>
 SleepEnd(l) == /\ sleeping[l].on
-               /\ now >= sleeping[l].start + sleeping[l].d
+               /\ now >= sleeping[l].cstart + sleeping[l].req
                /\ sleeping' = [sleeping EXCEPT ![l] = NoSleep]
                /\ lastSleep' = [lastSleep EXCEPT ![l] = [start |-> sleeping[l].start, d |-> sleeping[l].d, end |-> now]]
                /\ prev' = [prev EXCEPT ![l] = seen[l]]
                /\ seen' = [seen EXCEPT ![l] = now]
                /\ UNCHANGED now
-Next == Tick \/ \E l \in Lanes : Read(l) \/ SleepEnd(l) \/ \E d \in Durs : SleepBegin(l, d)
+Next == Tick \/ \E l \in Lanes : Read(l) \/ SleepEnd(l) \/ Interrupt(l) \/ \E d \in Durs : SleepBegin(l, d)
 
 ReadMonotone == \A l \in Lanes : prev[l] <= seen[l]
 SleepLower == \A l \in Lanes : lastSleep[l].end >= lastSleep[l].start + lastSleep[l].d
+\* why it holds: restarting with the remainder never moves the deadline
+DeadlineKept == \A l \in Lanes : sleeping[l].on => sleeping[l].cstart + sleeping[l].req = sleeping[l].start + sleeping[l].d
 =============================================================================
